@@ -183,6 +183,8 @@ class FinamInterp(Interp):
             return self.ext_isinstance(v, klass.args[0], node)
         if not isinstance(klass, Class):
             raise AnalysisError(f"isinstance against {klass!r}")
+        if isinstance(v, Sym) and v.op == "enum" and self.repo.has_cls(v.args[0]):
+            return self.repo.is_subclass(self.repo.cls(v.args[0]), klass)
         if isinstance(v, Obj):
             if v.cls is not None:
                 return self.repo.is_subclass(v.cls, klass) or klass.name in v.markers
